@@ -1078,7 +1078,15 @@ impl ProcessMonitor {
                                     "{} since the lock state of the state file could not be acquired.", msg);
                 match lock_state {
                     Some(l) if l.lock_type() == LockType::Write => Ok(ProcessState::Alive),
-                    _ => Ok(ProcessState::Dead),
+                    // the owner removes the state file before it closes it (and thereby releases
+                    // the lock): an unlocked file that is already unlinked belongs to a process
+                    // that is shutting down, not to a dead one
+                    _ => match state_file.metadata() {
+                        Ok(metadata) if metadata.number_of_links() == 0 => {
+                            Ok(ProcessState::CleaningUp)
+                        }
+                        _ => Ok(ProcessState::Dead),
+                    },
                 }
             }
             None => Ok(ProcessState::CleaningUp),
